@@ -121,6 +121,9 @@ func cmdDev(args []string) int {
 			}
 		}
 		if c.Trusted {
+			if c.TrustedPart {
+				units = append(units, p.encodeCallPreOnly(c))
+			}
 			continue
 		}
 		u := p.encodeUnit(c)
